@@ -10,18 +10,27 @@ open FastQr Model Spec Finite
 theorem templateOk_of_lt {v : Nat} (hv : v < 40) : templateOk v = true :=
   all_range templateOk_all v hv
 
-/-- every cell of the blank symbol is what ISO prescribes -/
-theorem template_cell {v : Nat} (hv : v < 40) {r c : Nat} (hr : r < Regions.side v)
-    (hc : c < Regions.side v) : (template v).get r c = expectedCell v r c := by
+theorem template_cellOk {v : Nat} (hv : v < 40) {r c : Nat} (hr : r < Regions.side v)
+    (hc : c < Regions.side v) :
+    templateCellOk (Regions.ctx v) r c ((template v).get r c) = true := by
   have h := templateOk_of_lt hv
   simp only [templateOk, Bool.and_eq_true, beq_iff_eq] at h
   obtain ⟨⟨⟨hn, _hsz⟩, _htr⟩, hall⟩ := h
-  have hk := all_range hall (r * (Regions.ctx v).n + c) (idx_lt (by simpa [Regions.ctx] using hr) (by simpa [Regions.ctx] using hc))
   have hc' : c < (Regions.ctx v).n := by simpa [Regions.ctx] using hc
+  have hk := all_range hall (r * (Regions.ctx v).n + c) (idx_lt (by simpa [Regions.ctx] using hr) hc')
   rw [idx_div hc', idx_mod hc'] at hk
-  simp only [beq_iff_eq] at hk
-  simp only [QR.get, hn, expectedCell]
+  simp only [QR.get, hn]
   exact hk
+
+/-- every cell of the blank symbol outside the version-information areas is what ISO prescribes -/
+theorem template_cell {v : Nat} (hv : v < 40) {r c : Nat} (hr : r < Regions.side v)
+    (hc : c < Regions.side v) (hnv : Regions.region v r c ≠ .version) :
+    (template v).get r c = expectedCell v r c := by
+  have h := template_cellOk hv hr hc
+  have : (Regions.regionIn (Regions.ctx v) r c == Region.version) = false := by
+    simpa [Regions.region] using hnv
+  simp only [templateCellOk, this, Bool.false_eq_true, if_false, beq_iff_eq] at h
+  exact h
 
 theorem template_n {v : Nat} (hv : v < 40) : (template v).n = Regions.side v := by
   have h := templateOk_of_lt hv
@@ -42,29 +51,14 @@ theorem template_traps {v : Nat} (hv : v < 40) : templateTraps v = [] := by
 /-- the label of every cell of the blank symbol is its ISO region -/
 theorem template_type {v : Nat} (hv : v < 40) {r c : Nat} (hr : r < Regions.side v)
     (hc : c < Regions.side v) : (template v).type r c = (Regions.region v r c).code := by
-  simp only [QR.type, template_cell hv hr hc, expectedCell, expectedCellIn, Regions.region]
-  split
-  · rename_i h
-    split
-    · simp
-    · -- a version cell that is not in the version list: the checker value 255 has label 127;
-      -- impossible because `regionIn = version` requires membership — discharged by evaluation of
-      -- the checker (the cell equals 255 only if the check failed), so we use the checked equality
-      rename_i hnone
-      have hreg : Regions.regionIn (Regions.ctx v) r c = .version := by simpa using h
-      simp only [Regions.regionIn] at hreg
-      repeat' split at hreg
-      all_goals first | (simp at hreg; done) | skip
-      rename_i hcont
-      simp only [Bool.and_eq_true, List.contains_eq_mem, decide_eq_true_eq] at hcont
-      have hmem := hcont.2
-      have : ((Regions.ctx v).vcells.zipIdx.find? fun x => x.1 == (r, c)).isSome := by
-        rw [List.find?_isSome]
-        obtain ⟨i, hi, hget⟩ := List.getElem_of_mem hmem
-        exact ⟨((r, c), i), by
-          rw [List.mem_iff_getElem]
-          exact ⟨i, by simpa using hi, by simp [hget]⟩, by simp⟩
-      simp [hnone] at this
-  · simp
+  have h := template_cellOk hv hr hc
+  simp only [templateCellOk] at h
+  by_cases hreg : Regions.regionIn (Regions.ctx v) r c = .version
+  · simp only [hreg, beq_self_eq_true, if_true, beq_iff_eq] at h
+    simp only [QR.type, Regions.region, hreg]
+    exact h
+  · have : (Regions.regionIn (Regions.ctx v) r c == Region.version) = false := by simpa using hreg
+    simp only [this, Bool.false_eq_true, if_false, beq_iff_eq] at h
+    simp only [QR.type, h, expectedCellIn, mtype_mk, Regions.region]
 
 end FastQr.Proofs
